@@ -1360,18 +1360,29 @@ class _TreeItems:
     def __iter__(self):
         bucket = self.firstbucket
         itertype = self.itertype
-        iterargs = self.iterargs
+        iterargs = tuple(self.iterargs)
+        min, max, excludemin, excludemax = (
+            iterargs + (_marker, _marker, False, False)[len(iterargs):])
+        # An exclusive bound that was omitted drops only the overall
+        # smallest (largest) key, so it applies to the first (last)
+        # bucket only, not to every bucket we walk over.
+        open_min = min is _marker or min is None
+        open_max = max is _marker or max is None
+        first = True
         done = 0
         # Note that we don't mind if the first bucket yields no
         # results due to an idiosyncrasy in how range searches are done.
         while bucket is not None:
-            for k in getattr(bucket, itertype)(*iterargs):
+            emin = excludemin and (first or not open_min)
+            emax = excludemax and (bucket._next is None or not open_max)
+            for k in getattr(bucket, itertype)(min, max, emin, emax):
                 yield k
                 done = 0
             if done:
                 return
             bucket = bucket._next
             done = 1
+            first = False
 
 
 class _TreeIterator:
